@@ -155,10 +155,15 @@ CLAIMED = {
              "sign extension = two's complement for every 1<=n<=c<=64; enum width minimal. Tie: schemas over every type constructor generated with "
              "fcp_cpp, compiled with g++ -std=c++17 (ASan+UBSan) with a generic JSON driver, encoder bytes vs model, decoder vs value, plus one schema "
              "with every width 1..64 and enum maxima up to 2^63 at their boundary values and the carrier/enum-width functions exhaustively on 1..64 / around powers of two; every per-protocol header fcp_<protocol>.h is "
-             "compiled with a driver of its own and must answer like fcp.h.",
-        note="'compiles as C++17' is decided by g++ on the sampled schemas, not by a theorem; services (rpc) only compile-checked; values travel "
+             "compiled with a driver of its own and must answer like fcp.h. The rpc layer (rpc.py: wrapper structs, ServiceId / MethodId enums) "
+             "is modelled (Rpc.lean): C03_rpc_keeps_user_types - every user type resolves to the same closed type in the extended schema the "
+             "headers are rendered from; C03_accepted_generates - a schema that passes the general checks and the C++ plug-in's service check "
+             "makes generate_rpc return; generate_rpc is compared with the model on service edge cases and fleet schemas, and a probe of 24 "
+             "service declarations demands: accepted => generates and fcp.h + rpc.h + client/server headers compile.",
+        note="'compiles as C++17' is decided by g++ on the sampled schemas, not by a theorem; the client/server templates are compile-checked only; values travel "
              "as JSON (no infinities/NaN); decode of truncated input is outside the property and not modelled. Recorded finding "
-             "reserved-word-identifiers (names that are C++ keywords are written verbatim) shown on its witness; fixed: fcp_default.h namespace.",
+             "reserved-word-identifiers (names that are C++ keywords are written verbatim) and rpc-derived-name-clash (a declared name equal to a derived "
+             "wrapper / id-enum name) shown on their witnesses; fixed: fcp_default.h namespace, service checks (35b0f7d), rpc names (d1ce970), wrapper table (88563f4).",
         technique="Lean 4 proof (refinement of the generated codec to the canonical wire format) + compiled-code differential check",
         ref="DESIGN.md section 8, C03"),
     "C13": dict(
